@@ -694,3 +694,30 @@ def expand_single_defs(fnode, expr, keep=(), max_depth=6):
         return holder.body
 
     return sub(_clone(expr), 0)
+
+
+def row_writes(fnode):
+    """Rows a function writes to a file: [(call node, cells)] where cells is the element sequence (seq_shape) of
+    print(c1, c2, ..., file=f)  or  f.write(SEP.join(map(str, ROW)) + "\\n")  /  f.write(SEP.join(str(x) for x in ROW) + "\\n")."""
+    from .norm import u
+
+    out = []
+    for c in walk_function(fnode):
+        if not isinstance(c, ast.Call):
+            continue
+        if isinstance(c.func, ast.Name) and c.func.id == "print":
+            out.append((c, printed_shape(fnode, c)))
+        elif isinstance(c.func, ast.Attribute) and c.func.attr == "write" and len(c.args) == 1:
+            a = c.args[0]
+            if isinstance(a, ast.BinOp) and isinstance(a.op, ast.Add) and isinstance(a.right, ast.Constant) and a.right.value == "\n":
+                a = a.left
+            if isinstance(a, ast.Call) and isinstance(a.func, ast.Attribute) and a.func.attr == "join" and len(a.args) == 1:
+                j = a.args[0]
+                row = None
+                if isinstance(j, ast.Call) and isinstance(j.func, ast.Name) and j.func.id == "map" and len(j.args) == 2 and u(j.args[0]) == "str":
+                    row = j.args[1]
+                elif isinstance(j, (ast.GeneratorExp, ast.ListComp)) and len(j.generators) == 1 and not j.generators[0].ifs and u(j.elt) == "str(%s)" % u(j.generators[0].target):
+                    row = j.generators[0].iter
+                if row is not None:
+                    out.append((c, seq_shape(fnode, row)))
+    return out
